@@ -48,6 +48,11 @@ pub mod gen {
             json!([{"a": {"b": {"c": 1}}}, {"a": {"b": {"c": 2}}}, {"a": {"b": 1}}]),
             json!([[[1]], [[]], []]),
             json!({"a": 1, "b": {"a": 2, "b": {"a": 3}}}),
+            json!([{"ключ": 1}, {"k": [2]}, {"é": {"é": [1, {"𝄞": 2}]}}]),
+            json!({"é": {"k": 1}, "𝄞": {"k": [1, 2]}, "k": {"☺": {"k": 3}}}),
+            json!([{"a": false}, {"a": null}, {"a": 0}, {"b": false}, [false], [null], false, null]),
+            json!({"a": {"a": 1}, "b": {"a": {"a": 2}}}),
+            json!([[3, 1, 2], [1], [], [5, 4]]),
         ]
     }
     pub fn random_doc(rng: &mut Rng, depth: usize) -> Value {
